@@ -8,6 +8,7 @@ from .. import paths, waiters
 from ..core import FUNC, call_attr, calls_in, const, dotted, is_const, norm, text, walk_local
 
 EXPLANATION = [
+    'C09.cid-domain: every keyed access (subscript, get/pop, membership, set intersection) to a per-connection channel table uses a key of that table\'s numbering: `channels` own-allocated identifiers (find_free_*, channel.source_cid), `le_coc_channels` peer-allocated ones (request.source_cid in a request handler, *.destination_cid); no method replaces a per-connection table as a whole.',
     'C09.allocator-scan: every identifier a find_free_* allocator returns was individually tested `not in` the table it was given (no block allocation from the first free one).',
     'C09.response-echo: both channel classes answer a Disconnection Request with the request\'s own identifier, destination_cid and source_cid; the manager matches the response by the echoed source CID.',
     'C09.symmetric: the set of ChannelManager tables a channel of each class is '
@@ -314,6 +315,127 @@ def per_connection_tables(p):
 
 
 # ---------------------------------------------------------------------------
+CID_DOMAIN = {'channels': 'own', 'le_coc_channels': 'peer'}
+
+
+def _cid_accesses(m):
+    """(alias table, key expression, node) for every keyed access to a per-connection channel table in method m."""
+    al = {k: v for k, v in _table_aliases(m).items() if v in TABLES}
+    out = []
+
+    def alias_in(e):
+        # alias, set(alias), alias.keys()
+        if isinstance(e, ast.Name) and e.id in al:
+            return al[e.id]
+        if isinstance(e, ast.Call) and e.args and dotted(e.func) in ('set', 'list', 'frozenset') and isinstance(e.args[0], ast.Name) and e.args[0].id in al:
+            return al[e.args[0].id]
+        if isinstance(e, ast.Call) and isinstance(e.func, ast.Attribute) and e.func.attr == 'keys' and isinstance(e.func.value, ast.Name) and e.func.value.id in al:
+            return al[e.func.value.id]
+        return None
+    for n in ast.walk(m):
+        if isinstance(n, ast.Subscript) and isinstance(n.value, ast.Name) and n.value.id in al:
+            out.append((al[n.value.id], n.slice, n))
+        elif isinstance(n, ast.Call) and isinstance(n.func, ast.Attribute) and n.func.attr in ('get', 'pop', 'setdefault') and isinstance(n.func.value, ast.Name) and n.func.value.id in al and n.args:
+            out.append((al[n.func.value.id], n.args[0], n))
+        elif isinstance(n, ast.Compare) and len(n.ops) == 1 and isinstance(n.ops[0], (ast.In, ast.NotIn)) and alias_in(n.comparators[0]):
+            out.append((alias_in(n.comparators[0]), n.left, n))
+        elif isinstance(n, ast.Call) and isinstance(n.func, ast.Attribute) and n.func.attr in ('intersection', 'isdisjoint', 'difference', 'issubset') and n.args:
+            a, b = n.func.value, n.args[0]
+            if alias_in(b):
+                out.append((alias_in(b), a, n))
+            elif alias_in(a):
+                out.append((alias_in(a), b, n))
+        elif isinstance(n, ast.BinOp) and isinstance(n.op, (ast.BitAnd, ast.Sub)):
+            if alias_in(n.right):
+                out.append((alias_in(n.right), n.left, n))
+            elif alias_in(n.left):
+                out.append((alias_in(n.left), n.right, n))
+    return out
+
+
+def _cid_classifier(m):
+    """expression -> 'own' | 'peer' | None: whose numbering a channel identifier expression belongs to."""
+    params = [a.arg for a in m.args.args]
+    peer_request = {a for a in params if a == 'request'} if m.name.startswith('on_') and m.name.endswith('_request') else set()
+    dom = {}
+
+    def classify(e):
+        if isinstance(e, ast.Name):
+            return dom.get(e.id)
+        if isinstance(e, ast.Attribute):
+            if e.attr == 'destination_cid':
+                return 'peer'
+            if e.attr == 'source_cid':
+                return 'peer' if dotted(e.value) in peer_request else 'own'
+            return None
+        if isinstance(e, ast.Call):
+            nm = call_attr(e) or ''
+            if nm.startswith('find_free_'):
+                return 'own'
+            if dotted(e.func) in ('set', 'list', 'sorted', 'tuple', 'frozenset') and e.args:
+                return classify(e.args[0])
+            return None
+        if isinstance(e, ast.Subscript):
+            return classify(e.value)
+        if isinstance(e, ast.NamedExpr):
+            return classify(e.value)
+        return None
+    for _ in range(3):
+        for n in ast.walk(m):
+            tgt = val = None
+            if isinstance(n, ast.Assign) and len(n.targets) == 1:
+                tgt, val = n.targets[0], n.value
+            elif isinstance(n, ast.NamedExpr):
+                tgt, val = n.target, n.value
+            elif isinstance(n, (ast.For, ast.comprehension)):
+                tgt, val = n.target, n.iter
+            if isinstance(tgt, ast.Name) and val is not None:
+                d = classify(val)
+                if d and dom.get(tgt.id) in (None, d):
+                    dom[tgt.id] = d
+                elif d:
+                    dom[tgt.id] = 'mixed'
+    return lambda e: (classify(e) if classify(e) in ('own', 'peer') else None)
+
+
+def cid_domain(ctx, rule='C09.cid-domain'):
+    """The two per-connection channel tables are keyed in different numberings: `channels` by identifiers this side
+    allocated, `le_coc_channels` by identifiers the peer allocated.  Both sides start numbering at the same value, so a
+    key of one numbering looked up in the other table hits an unrelated channel."""
+    R, p = ctx.r, ctx.p
+    cm = p.cls(CM)
+    if cm is None:
+        R.bad(rule, CM, 'anchor missing')
+        return
+    n_known = 0
+    for name, m in sorted(cm.methods.items()):
+        classify = _cid_classifier(m)
+        for table, key, node in _cid_accesses(m):
+            d = classify(key)
+            if d is None:
+                continue
+            n_known += 1
+            kind = 'membership test' if isinstance(node, (ast.Compare, ast.BinOp)) or (isinstance(node, ast.Call) and node.func.attr in ('intersection', 'isdisjoint', 'difference', 'issubset')) else 'access'
+            R.check(d == CID_DOMAIN[table], rule, f'{CM}.{name} | {table}[{norm(key)}]', f'{kind} with a key in the table\'s own numbering ({CID_DOMAIN[table]}-allocated identifiers)',
+                    f'`{norm(key)}` is a {d}-allocated channel identifier but `{table}` is keyed by {CID_DOMAIN[table]}-allocated identifiers: both sides number from the same base, so the {kind} hits an unrelated channel (simultaneous opens from both sides are refused or misrouted)', p.loc(node))
+    R.check(n_known >= 14, rule, f'{CM} | classified accesses', f'{n_known} keyed accesses with a known numbering', f'only {n_known} keyed accesses classified')
+    # per-connection sub-tables are created on demand (setdefault) and removed whole only at disconnection:
+    # assigning a fresh dict to self.<table>[handle] forgets every channel already open on that link
+
+    def wipes(tree):
+        out = []
+        for n in ast.walk(tree):
+            tg = n.targets if isinstance(n, ast.Assign) else [n.target] if isinstance(n, (ast.AugAssign, ast.AnnAssign)) else []
+            for t in tg:
+                if isinstance(t, ast.Subscript) and (dotted(t.value) or '') in ('self.channels', 'self.le_coc_channels', 'self.manager.channels', 'self.manager.le_coc_channels'):
+                    out.append(n)
+        return out
+    control = wipes(ast.parse('def f(self, h, cs):\n    self.le_coc_channels[h] = {c.destination_cid: c for c in cs}\n'))
+    found = [(name, n) for name, m in cm.methods.items() for n in wipes(m)]
+    R.check(len(control) == 1 and not found, rule, f'{CM} | per-link tables never replaced', 'no method assigns a whole per-connection table (positive control matched)',
+            f'a per-connection channel table is replaced as a whole in {sorted({n for n, _ in found})}: channels already open on that link vanish from the table (their credits / PDUs are dropped as unknown)', p.loc(found[0][1]) if found else '')
+
+
 def keying(ctx):
     R, p = ctx.r, ctx.p
     rule = 'C09.keying'
@@ -746,6 +868,7 @@ RULES = [
     ('C09.response-echo', response_echo),
     ('C09.symmetric', symmetric),
     ('C09.keying', keying),
+    ('C09.cid-domain', cid_domain),
     ('C09.waiters', l2cap_waiters),
     ('C09.close-releases', close_releases),
     ('C09.cid-alloc', cid_alloc),
